@@ -1,4 +1,4 @@
-import Ledger.Driver.Core
+import Ledger.Driver.Reads
 
 /-! `ldriver_reads`: correspondence driver for the Reads area (core-only). -/
-def main : IO Unit := Ledger.Driver.runDriver []
+def main : IO Unit := Ledger.Driver.runDriver Ledger.Driver.Reads.readsHandlers
